@@ -196,6 +196,11 @@ static int on_data(const char *hook, htp_tx_data_t *d) {
     rec_t *r = R;
     const char *rn, *an;
     htp_tx_t *tx = d->tx;
+    if (tx == NULL) {       /* a data callback without a transaction: any callback written against the API documentation would dereference it */
+        r->ncb++;
+        fprintf(r->out, "{\"e\":\"NullTx\",\"n\":\"%s\",\"len\":%ld}\n", hook, (long) d->len);
+        return HTP_OK;
+    }
     int hi = hookidx(hook);
     note_order(r, tx, hi, 1);
     long idx = txi(tx);
